@@ -284,15 +284,18 @@ def r4_r5(prog, rep):
     ex = PolyEx(ctx, mod)
     env = {}
     inner = None
+    chain = []  # the nest of loops, outermost first (loop-invariant quantities may be hoisted)
     for n in ast.walk(f.node):
         if isinstance(n, ast.For):
             inner = n
-    for s in inner.body:
-        if isinstance(s, ast.Assign):
-            try:
-                ex.stmt(s, env)
-            except AlgError:
-                pass
+            chain.append(n)
+    for loop in chain:
+        for s in loop.body:
+            if isinstance(s, ast.Assign):
+                try:
+                    ex.stmt(s, env)
+                except AlgError:
+                    pass
     need = ["a", "b", "c", "d", "dr", "dz", "det", "alpha", "beta"]
     if not all(isinstance(env.get(k), Rat) for k in need):
         rep.ob("R4", "intersect: quantities extractable", False, f.site(), str({k: type(env.get(k)).__name__ for k in need}), key="intersect/extract")
@@ -314,10 +317,39 @@ def r4_r5(prog, rep):
     tests = [n for n in ast.walk(inner) if isinstance(n, ast.If) and any(isinstance(x, ast.Return) for x in n.body)]
     ok = False
     if tests:
-        t = " ".join(mod.text(tests[0].test).split())
-        ok = all(k in t for k in ("alpha > 0.0", "alpha < 1.0", "beta > 0.0", "beta < 1.0"))
+        ok = _atomic_comparisons(mod, tests[0].test) == {("alpha", ">", 0.0), ("alpha", "<", 1.0), ("beta", ">", 0.0), ("beta", "<", 1.0)}
     rep.ob("R4", "both parameters tested against the open interval (0,1)", ok, f.site(), "", key="intersect/interval")
     area_rules(prog, rep, "R5")
+
+
+def _atomic_comparisons(mod, test):
+    """the conjunction `test` as a set of (name, op, constant): `and`, `&` and chained comparisons
+    (`0.0 < a < 1.0`) are taken apart and each comparison is turned so that the name is on the left;
+    None if the test is not such a conjunction"""
+    flip = {ast.Lt: ">", ast.Gt: "<", ast.LtE: ">=", ast.GtE: "<="}
+    keep = {ast.Lt: "<", ast.Gt: ">", ast.LtE: "<=", ast.GtE: ">="}
+    out = set()
+
+    def visit(n):
+        if isinstance(n, ast.BoolOp) and isinstance(n.op, ast.And):
+            return all(visit(v) for v in n.values)
+        if isinstance(n, ast.BinOp) and isinstance(n.op, ast.BitAnd):
+            return visit(n.left) and visit(n.right)
+        if isinstance(n, ast.Compare):
+            terms = [n.left] + list(n.comparators)
+            for l, op, r in zip(terms, n.ops, terms[1:]):
+                if type(op) not in keep:
+                    return False
+                if isinstance(l, ast.Name) and isinstance(r, ast.Constant) and isinstance(r.value, (int, float)):
+                    out.add((l.id, keep[type(op)], float(r.value)))
+                elif isinstance(r, ast.Name) and isinstance(l, ast.Constant) and isinstance(l.value, (int, float)):
+                    out.add((r.id, flip[type(op)], float(l.value)))
+                else:
+                    return False
+            return True
+        return False
+
+    return out if visit(test) else None
 
 
 def area_rules(prog, rep, R="R5"):
